@@ -2,9 +2,87 @@
 from native import selftest_refinterp as ST
 from native.bounded._common import run_sections
 
-BOUND = "generated smooth+decomposable circuits: <= 3 variables with ids in 0..12 (ids >= 8 frequent), <= 3 units, sum arity <= 3, <= 2 outputs (outputs may feed other layers), Hadamard and Kronecker products, shared sub-circuits, layer budget ~5; 98 circuits (x4 thorough) x (fold, optimize) in sum-product with one parameter store pushed into every variant through retrieve_compiled_parameter; 31 parameter graphs x 4 flags"
+BOUND = "generated smooth+decomposable circuits: <= 3 variables with ids in 0..12 (ids >= 8 frequent), <= 3 units, sum arity <= 3, <= 2 outputs (outputs may feed other layers), Hadamard and Kronecker products, shared sub-circuits, layer budget ~5; 98 circuits (x4 thorough) x (fold, optimize) in sum-product with one parameter store pushed into every variant through retrieve_compiled_parameter; 31 parameter graphs x 4 flags; pattern prioritisation + graph rewriting: every set of candidate interval matches (length 1..3) on line graphs of <= 4 (5 thorough) modules"
 RULE = "one case = (circuit index or parameter graph, fold, optimize); each is compared with the flag-independent reference value, so any two flag settings agree; distinct by that tuple"
 
 
 def run(tier, seed):
-    return run_sections("C02", [ST.section_a, ST.section_b], {"A-tied", "B"}, BOUND, RULE, tier, seed)
+    res = run_sections("C02", [ST.section_a, ST.section_b], {"A-tied", "B"}, BOUND, RULE, tier, seed)
+    _prioritisation_section(res, tier, seed)
+    return res
+
+
+def _prioritisation_section(res, tier, seed):
+    """match_optimization_patterns / _prioritize_optimization_strategy on line graphs m0 -> m1 -> ... (every interval is an exclusive chain):
+    EVERY set of candidate interval matches of length 1..3 over n <= 4 modules (5 thorough), outputs = the top module or the top two;
+    the selected matches must be candidates, pairwise disjoint, every entry of a selected match must map to it, no module maps to an
+    unselected match, and no inner entry of a selected match is an output; then optimize_graph with single-module replacements must
+    return a well-formed line graph whose modules compose to the original function (uninterpreted symbols, structural comparison)."""
+    import itertools
+    import json
+    from cirkit.backend.torch.graph import optimize as GO
+    from native.bounded._common import Checker
+    ck = Checker("C02", BOUND, RULE, tier, seed)
+    ck.res = res
+    nmax = 5 if tier == "thorough" else 4
+    for n in range(1, nmax + 1):
+        mods = [type("M", (), {"__repr__": lambda self, i=i: f"m{i}"})() for i in range(n)]
+        inc = lambda m: [mods[mods.index(m) - 1]] if mods.index(m) > 0 else []
+        outc = lambda m: [mods[mods.index(m) + 1]] if mods.index(m) + 1 < n else []
+        intervals = [(lo, ln) for ln in (1, 2, 3) for lo in range(n - ln + 1)]
+        for r in range(0, len(intervals) + 1):
+            for cand in itertools.combinations(intervals, r):
+                for nouts in ((1, 2) if n >= 2 else (1,)):
+                    outputs = mods[n - nouts:][::-1]
+                    case = {"section": "prioritisation", "modules": n, "candidates": [list(c) for c in cand], "outputs": nouts}
+                    pats = {}
+                    for lo, ln in cand:
+                        pats[(lo, ln)] = type(f"P{lo}_{ln}", (GO.GraphOptPatternDefn,), {"entries": classmethod(lambda cls: []), "is_output": classmethod(lambda cls: False)})
+
+                    def matcher(m, pattern, *, incomings_fn, outcomings_fn):
+                        for (lo, ln), p in pats.items():
+                            if p is pattern and mods.index(m) == lo + ln - 1:
+                                return GO.GraphOptMatch(pattern, [mods[lo + ln - 1 - j] for j in range(ln)])
+                        return None
+
+                    def go():
+                        matches, mm = GO.match_optimization_patterns(mods, outputs, list(pats.values()), incomings_fn=inc, outcomings_fn=outc, pattern_matcher_fn=matcher)
+                        ok = all(any(m.pattern is p for p in pats.values()) for m in matches)
+                        ents = [id(e) for m in matches for e in m.entries]
+                        ok = ok and len(ents) == len(set(ents))
+                        ok = ok and all(mm.get(e) is m for m in matches for e in m.entries)
+                        ok = ok and all(any(v is m for m in matches) for v in mm.values())
+                        ok = ok and not any(e is o for m in matches for e in m.entries[1:] for o in outputs)
+                        ck.true("prioritised_matches_are_disjoint_consistent_chains", case, ok, f"selected {[[repr(e) for e in m.entries] for m in matches]}")
+                        if not ok:
+                            return
+                        comp = {}
+
+                        def optimizer(match):
+                            o = type("O", (), {})()
+                            comp[id(o)] = [repr(e) for e in reversed(match.entries)]
+                            keep.append(o)
+                            return (o,)
+                        keep = []
+                        out = GO.optimize_graph(mods, outputs, list(pats.values()), incomings_fn=inc, outcomings_fn=outc, pattern_matcher_fn=matcher, match_optimizer_fn=optimizer)
+                        if out is None:
+                            ck.true("none_only_without_matches", case, not matches)
+                            return
+                        new_mods, new_in, new_outs = out
+                        # denotation as nested tuples of module names; a replacement denotes the composition of its match's entries
+                        name = {id(m): repr(m) for m in mods}
+
+                        def den(x):
+                            args = tuple(den(i) for i in new_in[x])
+                            if id(x) in comp:
+                                v = args
+                                for nm in comp[id(x)]:
+                                    v = ((nm,) + tuple(v)) if not isinstance(v, tuple) or not v or not isinstance(v[0], str) else (nm, v)
+                                return v
+                            return (name[id(x)],) + args
+
+                        def ref(i):
+                            return (repr(mods[i]),) + ((ref(i - 1),) if i > 0 else ())
+                        ck.true("rewritten_line_graph_denotes_the_same_composition", case, [den(o) for o in new_outs] == [ref(mods.index(o)) for o in outputs],
+                                f"got {[den(o) for o in new_outs]}")
+                    ck.guarded("prioritisation", case, go)
